@@ -8,10 +8,11 @@
    the BCL walker's reflection mechanics are explored by the correspondence streams, not modelled. *)
 From Coq Require Import String List NArith ZArith Bool Arith.
 From J5V.lib Require Import Text Outcome.
-From J5V.gen Require SetExtGen PanicGen WalkerGen SourcewalkGen.
+From J5V.gen Require SetExtGen PanicGen WalkerGen SourcewalkGen WalkSchemaGen.
 From J5V.model Require Import Entity.
-From J5V.model Require Import BclLexer BclParser CmpbFields CmpbDecls CmpbFront CmpbWalker CmpbPackage CmpbEntity.
-From J5V.proofs Require Import BclPosProofs BclBytesProofs CmpbFieldsProofs CmpbPanicProofs CmpbDeclsProofs CmpbSchemaProofs CmpbFrontProofs CmpbPackageProofs CmpbEntityProofs.
+From J5V.model Require Import BclLexer BclParser CmpbFields CmpbDecls CmpbFront CmpbWalker CmpbPackage CmpbEntity CmpbWalk CmpbWalkFile.
+From J5V.proofs Require Import BclPosProofs BclBytesProofs CmpbFieldsProofs CmpbPanicProofs CmpbDeclsProofs CmpbSchemaProofs CmpbFrontProofs CmpbPackageProofs CmpbEntityProofs CmpbWalkProofs CmpbLinkProofs.
+From J5V.proofs Require J5sWitnessProofs.
 Import ListNotations.
 Local Open Scope string_scope.
 
@@ -278,29 +279,32 @@ Theorem C07_package_load_total : forall walk b name,
 Proof. exact load_package_total. Qed.
 Print Assumptions C07_package_load_total.
 
-(* positions, full statement: every error of a package load is positioned inside a file of the bundle *)
+(* positions, full statement: every error of loading a package of the bundle is positioned inside a file of the
+   bundle.  PROVED since fix 3f76693 (before it: refuted, 'no files for package' and 'circular dependency detected'
+   came back without a position).  imports_located: the span recorded for an import statement joins two node end
+   points of the syntax tree of the file's text (the walker's position contract for the "imports" entries of the
+   location tree; evaluated on the real location trees by the CPkgLoad correspondence) *)
 Definition C07_package_errors_positioned_statement : Prop := package_errors_positioned_statement.
-(* refuted: an import of a package nobody provides, and an import cycle, come back WITHOUT a position
-   (recorded findings "no files for package" / "circular dependency detected") *)
-Theorem C07_package_errors_positioned_refuted : ~ C07_package_errors_positioned_statement.
-Proof. exact package_errors_positioned_refuted. Qed.
-Print Assumptions C07_package_errors_positioned_refuted.
-Theorem C07_unknown_package_unpositioned :
-  load_package (front_fres demo_walk) unknown_pkg_bundle 1%N = Ok [mkPE ENoFiles None None].
-Proof. exact unknown_package_unpositioned. Qed.
-Print Assumptions C07_unknown_package_unpositioned.
-Theorem C07_package_cycle_unpositioned :
-  load_package (front_fres demo_walk) cycle_bundle 1%N = Ok [mkPE EPkgCycle None None].
-Proof. exact package_cycle_unpositioned. Qed.
-Print Assumptions C07_package_cycle_unpositioned.
-(* partial: every error is positioned inside a file of the bundle OR is one of those two loader errors.
-   Missing for the full statement: positions for the two loader errors; the link step (not modelled: its
-   errors are positioned in the generated file or, for a file cycle, not at all — recorded findings) *)
-Theorem C07_package_errors_positioned_partial : forall walk b name es, walker_contract walk ->
-  load_package (front_fres walk) b name = Ok es ->
-  Forall (fun e => perr_inside b e \/ (pe_stage e = ENoFiles /\ pe_pos e = None) \/ (pe_stage e = EPkgCycle /\ pe_pos e = None)) es.
-Proof. exact load_errors_positioned_partial. Qed.
-Print Assumptions C07_package_errors_positioned_partial.
+Theorem C07_package_errors_positioned : C07_package_errors_positioned_statement.
+Proof. exact package_errors_positioned. Qed.
+Print Assumptions C07_package_errors_positioned.
+(* the two former refutation witnesses, now positioned: an import of a package nobody provides is reported at that
+   import statement; an import cycle at the import statement that closes it (file 20 of package 2) *)
+Theorem C07_unknown_package_positioned :
+  load_package (front_fres demo_walk) unknown_pkg_bundle 1%N = Ok [mkPE ENoFiles (Some 10%N) (Some fine_span)].
+Proof. exact unknown_package_positioned. Qed.
+Print Assumptions C07_unknown_package_positioned.
+Theorem C07_package_cycle_positioned :
+  load_package (front_fres demo_walk) cycle_bundle 1%N = Ok [mkPE EPkgCycle (Some 20%N) (Some fine_span)].
+Proof. exact package_cycle_positioned. Qed.
+Print Assumptions C07_package_cycle_positioned.
+(* non-vacuity of the hypotheses on those two bundles; and the one place the unpositioned form survives: compiling
+   a package that NO file of the bundle belongs to (there is no offending file) *)
+Example C07_example_package_hypotheses :
+  imports_located unknown_pkg_bundle /\ imports_located cycle_bundle
+  /\ load_package (front_fres demo_walk) unknown_pkg_bundle 2%N = Ok [mkPE ENoFiles None None].
+Proof. exact (conj (proj1 witnesses_located) (conj (proj2 witnesses_located) absent_package_unpositioned)). Qed.
+Print Assumptions C07_example_package_hypotheses.
 
 (* the positive side: the loader adds no error of its own.  Every import names a local package of the bundle, the
    import relation is acyclic (a rank), every file is converted by its front end: the package loads (empty error list).
@@ -411,3 +415,116 @@ Example C07_example_entity :
      | _ => False
      end.
 Proof. cbv zeta. vm_compute. repeat split. Qed.
+
+(* ==================================================================================================
+   The first sentence with the REAL walker's model in place of the abstract [walk] (round 3).
+   model/CmpbWalk.v is the schema-directed BCL walker (c2.go, walk_context.go, walker/schema/*, the part of
+   lib/j5reflect it drives) run over two tables regenerated from /repo (gen/WalkSchemaGen.v: j5parse.J5SchemaSpec and
+   the j5schema closure of j5.sourcedef.v1.SourceFile); model/CmpbWalkFile.v adds validateFile and reads the filled
+   file as the converter model's located declarations.  [j5s_walk R] is a FUNCTION of the syntax tree: the location
+   tree, the declarations and every error position are computed from the input (tie: stream "walk", the whole
+   location tree, kinds and sizes of the declarations and the error positions of every front-end text compared in Coq).
+   mkR = how a type reference resolves in the file's package, given the filled file (the only thing the file alone does
+   not determine; [resolve_in_file]: the file is alone in its package; [j5s_walk R]: a fixed resolver R).
+   ================================================================================================== *)
+
+(* the parser never hands the walker a block without a type (parser.NewReference panics on it: C11's Panic site),
+   which is the one panic of the walker on a syntax tree (BuildScope -> TailScope -> nil root block) *)
+Theorem C07_parser_block_types_nonempty : forall ff data p body,
+  parse_runes ff data = Ok p -> ptree p = Some body -> body_refs_ok body = true.
+Proof. exact parse_runes_refs_ok. Qed.
+Print Assumptions C07_parser_block_types_nonempty.
+
+(* walker_returns for the instance: on every syntax tree of the parser the walker returns a file or positioned
+   errors, or says "outside the model" (maps of containers, non-ASCII map keys, > 300-rune float literals, a oneof
+   with two members set: model/CmpbWalk.v header) *)
+Theorem C07_walker_returns : forall mkR body, body_refs_ok body = true ->
+  (exists w, j5s_walk_gen mkR body = Ok w) \/ j5s_walk_gen mkR body = Err E_UNMODELLED.
+Proof. exact j5s_walk_gen_returns. Qed.
+Print Assumptions C07_walker_returns.
+
+(* walker_contract for the instance: every span of the location tree and every reported position has both ends
+   among the end points of the syntax tree's nodes (or the origin); error lists are not empty; every declaration's
+   properties / methods lie below the declaration's node *)
+Theorem C07_walker_contract : forall mkR body w, j5s_walk_gen mkR body = Ok w -> walk_out_ok' body w = true.
+Proof. exact j5s_walk_gen_contract. Qed.
+Print Assumptions C07_walker_contract.
+
+(* the protovalidate rules of the walker model were written from exactly the buf.validate annotations the two .proto
+   files carry today, and each annotated field has a model rule or is one of the two stated exemptions *)
+Theorem C07_validate_rules_agree :
+  vrule_sources = WalkSchemaGen.validate_annotations /\ forallb vrule_covered WalkSchemaGen.validate_annotations = true.
+Proof. exact (conj validate_sources_agree validate_rules_cover). Qed.
+Print Assumptions C07_validate_rules_agree.
+
+(* totality of the front end, for EVERY byte string and both parser modes, no hypothesis *)
+Theorem C07_front_end_total_j5s : forall mkR ff input,
+  (exists out, front_end (j5s_walk_gen mkR) ff input = Ok out) \/ front_end (j5s_walk_gen mkR) ff input = Err E_UNMODELLED.
+Proof. exact j5s_front_end_total. Qed.
+Print Assumptions C07_front_end_total_j5s.
+
+Theorem C07_front_end_errors_inside_file_j5s : forall mkR ff input st es,
+  front_end (j5s_walk_gen mkR) ff input = Ok (FEErrors st es) ->
+  es <> [] /\ Forall (fun sp => inside_bytes input (fst sp) /\ inside_bytes input (snd sp)) es.
+Proof.
+  intros mkR ff input st es H. split; [exact (proj1 (j5s_front_end_errors_positioned mkR ff input st es H))|
+                                        exact (j5s_front_end_errors_inside_bytes mkR ff input st es H)].
+Qed.
+Print Assumptions C07_front_end_errors_inside_file_j5s.
+
+(* "for any source text ... descriptors or errors that carry a position inside the file; never panics or hangs",
+   one file, closed: no walker hypothesis is left *)
+Definition C07_front_end_statement_j5s : Prop := forall mkR, j5s_front_end_statement mkR.
+Theorem C07_front_end_j5s : C07_front_end_statement_j5s.
+Proof. exact j5s_front_end_statement_holds. Qed.
+Print Assumptions C07_front_end_j5s.
+
+(* non-vacuity, on j5s TEXT: an object with two fields and an enum is converted (two declarations, two properties);
+   an unknown type is a walker error at the type tag; an integer without format is a protovalidate violation at the
+   field; `objec` is an error at the block type; garbage is a parser diagnostic *)
+Definition c07_src (l : list string) : list N := runes_of_string (String.concat (String (Ascii.ascii_of_nat 10) "") l).
+Example C07_example_front_end_j5s :
+  let R := resolve_none in
+  front_end (j5s_walk R) true (c07_src ["package foo.v1"; ""; "object Foo {"; "  field name string"; "  field n ! integer:INT32"; "}"; ""; "enum Kind {"; "  option A"; "  option B"; "}"; ""])
+    = Ok (FEConverted VOk
+           [LObject ["elements"; "0"; "object"; "object"] false
+              [mkLP (mkProp false (Plain (TString false false)) false false)
+                    ["elements"; "0"; "object"; "object"; "def"; "properties"; "0"]
+                    ["elements"; "0"; "object"; "object"; "def"; "properties"; "0"; "schema"; "string"; "ref"];
+               mkLP (mkProp false (Plain (TInteger I32 None false)) true false)
+                    ["elements"; "0"; "object"; "object"; "def"; "properties"; "1"]
+                    ["elements"; "0"; "object"; "object"; "def"; "properties"; "1"; "schema"; "integer"; "ref"]];
+            LEnum ["elements"; "1"; "enum"] (mkEnum false [false; false])])
+  /\ front_end (j5s_walk R) true (c07_src ["object Foo {"; "  field name strin"; "}"; ""]) = Ok (FEErrors SWalk [((1, 13)%Z, (1, 17)%Z)])
+  /\ front_end (j5s_walk R) true (c07_src ["object Foo {"; "  field n integer"; "}"; ""]) = Ok (FEErrors SWalk [((1, 10)%Z, (0, 0)%Z)])
+  /\ front_end (j5s_walk R) true (c07_src ["objec Foo {"; "}"; ""]) = Ok (FEErrors SWalk [((0, 0)%Z, (0, 4)%Z)])
+  /\ front_end (j5s_walk R) true (c07_src ["x = #"; ""]) = Ok (FEErrors SParse [((0, 4)%Z, (0, 4)%Z)])
+  (* the file alone in its package: a reference to a declaration of the file converts, a reference to nothing is a
+     conversion error at the object keyword (the property's own node is virtual, see notes) *)
+  /\ (exists lf, front_end j5s_walk_alone true (c07_src ["object Foo {"; "  field bar object:Bar"; "}"; "object Bar {"; "}"; ""]) = Ok (FEConverted VOk lf))
+  /\ front_end j5s_walk_alone true (c07_src ["object Foo {"; "  field bar object:Baz"; "}"; ""]) = Ok (FEErrors SConvert [((0, 0)%Z, (0, 5)%Z)]).
+Proof. cbv zeta. repeat split; try (vm_compute; reflexivity). eexists. vm_compute. reflexivity. Qed.
+
+(* ---- "is accepted AND LINKS", over a model of the link step (round 3).  The converter-core theorems above use one
+   predicate for linking (an extension's file is imported).  The cmpa family's model (J5sConvert.compile_package: convert
+   every file, the linker's symbol table, resolution of every type name, link of the imported generated files) is the
+   link phase proper; over it, every package of a valid bundle (C02's validity = the language of harness/j5sgen, whose
+   texts go through this property's walker and compile streams) converts, defines no symbol twice and links.
+   The two models are not connected by proof: the declarations of this file's front end (abstract fields) are not
+   J5sAst terms. *)
+Theorem C07_valid_bundle_accepted_and_links : forall bd pkg,
+  J5sCorr.valid bd = true -> (exists f, In f bd /\ J5sWalk.bfile_pkg f = pkg) ->
+  exists fs D, J5sConvert.convert_package Strcase.to_snake Strcase.to_camel Strcase.to_screaming_snake bd pkg = Ok fs
+               /\ J5sLink.nodup_str (J5sConvert.package_symbols bd pkg fs) = true
+               /\ J5sLink.link_files fs = Ok D
+               /\ J5sCorr.compile bd pkg = Ok D.
+Proof. exact valid_bundle_accepted_and_links. Qed.
+Print Assumptions C07_valid_bundle_accepted_and_links.
+
+Example C07_example_links :
+  J5sCorr.valid J5sWitnessProofs.w_captured = true
+  /\ exists fs D, J5sConvert.convert_package Strcase.to_snake Strcase.to_camel Strcase.to_screaming_snake J5sWitnessProofs.w_captured (J5sAst.b "foo.v1") = Ok fs
+                  /\ J5sLink.link_files fs = Ok D /\ D <> [].
+Proof.
+  split; [vm_compute; reflexivity|]. eexists. eexists. split; [vm_compute; reflexivity|]. split; [vm_compute; reflexivity|discriminate].
+Qed.
